@@ -182,10 +182,28 @@ def canon(obj, _depth=0):
         return [type(obj).__name__, [canon(x, d) for x in obj]]
     if isinstance(obj, (set, frozenset)):
         return [type(obj).__name__, sorted(repr(canon(x, d)) for x in obj)]
-    if isinstance(obj, (Region, RegionMask, RegionBoundingBox)):
+    if isinstance(obj, Region):
+        # the *value* of a region: class, shape parameters, meta, visual and
+        # any other public instance attribute.  Private attributes (leading
+        # underscore) are representation, e.g. caches, and are ignored: the
+        # properties speak about "parameters, meta, visual".
+        items = []
+        seen = set()
+        for k in list(getattr(obj, '_params', ()) or ()) + ['meta', 'visual']:
+            seen.add(k)
+            try:
+                items.append([k, canon(getattr(obj, k), d)])
+            except AttributeError:
+                items.append([k, ['missing']])
+        for k in sorted(obj.__dict__):
+            if k.startswith('_') or k in seen:
+                continue
+            items.append([k, canon(obj.__dict__[k], d)])
+        return ['obj', type(obj).__name__, items]
+    if isinstance(obj, (RegionMask, RegionBoundingBox)):
         items = []
         for k in sorted(obj.__dict__):
-            if k.startswith('_mpl_selector'):
+            if k.startswith('_'):
                 continue
             items.append([k, canon(obj.__dict__[k], d)])
         return ['obj', type(obj).__name__, items]
